@@ -8,6 +8,9 @@ for d in sorted(glob.glob('/verif/seeded/C*')):
   if only and sid not in only:
     continue
   m = json.load(open(os.path.join(d, 'meta.json')))
+  if m.get('obsolete_after'):
+    print(sid, 'skipped: valid at', m.get('base_commit'), '- obsolete after', m['obsolete_after'])
+    continue
   prop = m['breaks_property']
   extra = sorted({k.split('@')[0] for k in m['checks_run']} - {prop})
   r = subprocess.run(['/verif/tools/seedcheck.py', sid, os.path.join(d, 'patch.diff'), os.path.join(d, 'demo.py'),
